@@ -145,12 +145,16 @@ def run_rand(shard, rec, B):
 def fixed_circuit(B, N, rng, cls):
     prog = PR.rand_program(rng, N, int(rng.integers(1, 8)))
     circ = B.circuit.identity_circuit(N) if cls == "CliffordCircuit" else B.circuit.Circuit(N)
+    gates = []
     for s in prog:
-        circ.take(PR.make_gate(B, s, N))
+        g = PR.make_gate(B, s, N)
+        gates.append(g)
+        circ.take(g)
     compiled = bool(rng.integers(2))
     if compiled:
         circ.compile()
     circ._vp_compiled_by_harness = compiled
+    circ._vp_gates = gates
     return circ, prog
 
 
@@ -225,6 +229,14 @@ def run_shadow(shard, rec, B):
             more = PR.rand_program(rng, N, int(rng.integers(1, 4)))
             for sp_ in more:
                 circ.take(PR.make_gate(B, sp_, N))
+            prog = list(prog)
+            # a generator gate that is already part of the circuit is re-targeted through its public setter
+            cand = [i_ for i_, sp_ in enumerate(prog) if sp_["kind"] == "setgen"]
+            if cand and rng.integers(2):
+                i_ = cand[int(rng.integers(len(cand)))]
+                nG, nP = gen.rand_nonid(rng, len(prog[i_]["qubits"])), 2 * int(rng.integers(2))
+                circ._vp_gates[i_].set_generator(B.Pauli(nG, nP))
+                prog[i_] = dict(prog[i_], G=nG, PG=nP)
             if getattr(circ, "_vp_compiled_by_harness", False):
                 circ.compile()          # documented: recompile after changing a circuit that the USER compiled
             prog2 = prog + more
